@@ -558,8 +558,12 @@ func (s *Store) Update(_ context.Context, obj client.Object, opts ...client.Upda
 		return nil
 	}
 	doc := toDoc(obj)
-	s.replace(i, doc)
-	c.Effect = true
+	serverOwned(cur, doc)
+	// an update that changes nothing is a no-op: the resourceVersion stays
+	if !reflect.DeepEqual(doc, cur) {
+		s.replace(i, doc)
+		c.Effect = true
+	}
 	if f == FaultErrEffect {
 		c.Err = true
 		s.log(c)
